@@ -96,6 +96,13 @@ def check(ck: Checker) -> None:
         if isinstance(p, ast.Call) and is_method_call(p, "update") and norm(p.func.value) == m.failed:
             ck.ok("C11.nodrop", move, x, "result flows directly into the cumulative failure set")
             continue
+        # failed |= _add(...)   /   failed = failed | _add(...)
+        if isinstance(p, ast.AugAssign) and isinstance(p.op, ast.BitOr) and norm(p.target) == m.failed and p.value is c:
+            ck.ok("C11.nodrop", move, x, "result is or-ed into the cumulative failure set")
+            continue
+        if isinstance(p, ast.BinOp) and isinstance(p.op, ast.BitOr) and m.failed in (norm(p.left), norm(p.right)) and isinstance(parent(p), ast.Assign) and [norm(t) for t in parent(p).targets] == [m.failed]:
+            ck.ok("C11.nodrop", move, x, "result is or-ed into the cumulative failure set")
+            continue
         # used as / assigned to a tested value: on the 'has failures' edge the failures are recorded
         tests = [t for t in g.nodes.values() if t.kind == "test" and refers_to_call(move, t.ast, [c])]
         if not tests:
